@@ -417,6 +417,21 @@ func (h *histRun) monitorState(r int, opIdx int, unbounded bool) {
 			}
 		}
 	}
+	// C05: what a caller does to a view it was handed does not reach the log (views are the caller's own)
+	{
+		handed := l.Values()
+		want := hashesOf(handed.Slice())
+		handed.Reverse()
+		if got := hashesOf(l.Values().Slice()); !eqStrings(got, want) {
+			h.fail("C05", "view-is-private", "C05:view-shared-with-caller", "reversing the map returned by Values() changed what the next Values() returns", opIdx)
+		}
+		ents := l.GetEntries()
+		wantE := append([]string{}, ents.Keys()...) // Keys() hands out the map's own slice
+		ents.Reverse()
+		if got := l.GetEntries().Keys(); !eqStrings(got, wantE) {
+			h.fail("C05", "view-is-private", "C05:view-shared-with-caller", "reversing the map returned by GetEntries() changed what the next GetEntries() returns", opIdx)
+		}
+	}
 	sv := hashesOf(snap.Values)
 	if !eqStrings(sv, hashesOf(vals)) && total {
 		h.fail("C03", "snapshot-values", "C03:snapshot-differs", "ToSnapshot().Values differs from Values()", opIdx)
